@@ -158,11 +158,11 @@ func Load(opt Options) (*Program, error) {
 			if g.Synthetic != "" || g.Origin() != nil {
 				return false
 			}
+			if g.Object() != nil && g.Object().Exported() && !p.isInternalPkg(g) {
+				return false // API functions keep their name on their callers' paths, whatever their body looks like
+			}
 			if paths.TrivialWrapper(g) {
 				return true // forwards to one call: callers see the wrapped call
-			}
-			if g.Object() != nil && g.Object().Exported() && !p.isInternalPkg(g) {
-				return false
 			}
 			_, frozen := FrozenAnchors[paths.FuncName(g)]
 			return !frozen
@@ -797,8 +797,8 @@ func (p *Program) owners(f *ssa.Function, lift bool) []*ssa.Function {
 			visit(r)
 			n++
 		}
-		if n == 0 {
-			out[g] = true
+		if n == 0 && !(wrapper && g != f) {
+			out[g] = true // (a compiler-generated wrapper nobody calls owns nothing)
 		}
 	}
 	visit(f)
